@@ -33,6 +33,8 @@ struct Drv<const V: u32> {
     max_non_los: usize,
     rng: Rng,
     nslots: usize,
+    /// (index in the VM's weak table, key id, value id) of every entry of the current program
+    chains: Vec<(usize, u64, u64)>,
 }
 
 fn root_get(m: usize, i: usize) -> usize {
@@ -109,6 +111,42 @@ impl<const V: u32> Drv<V> {
         ev(Obj::new("GCRequest").int("m", m as i64).bool("exhaustive", exhaustive));
         mmtk::<V>().handle_user_collection_request(mutator_tls(m), true, exhaustive);
         ev(Obj::new("GCReturn").int("m", m as i64));
+        self.weak_report();
+    }
+
+    /// C13 ("objects it traced survive with updated addresses"): what the VM's weak table holds
+    /// after a collection. For every entry created by `weak_chain` that is still present: the
+    /// identity words read through the table's key and value references, the identities the entry
+    /// was created with, and - when some root still refers to the key object - that root's value
+    /// (MMTk updated the root slot itself; the table was updated by the VM through the tracer).
+    /// The specification compares; nothing is judged here.
+    fn weak_report(&mut self) {
+        if self.chains.is_empty() {
+            return;
+        }
+        let table: Vec<(usize, usize)> = with_world(|w| w.weak_table.clone());
+        let roots: Vec<usize> = with_world(|w| {
+            w.mutators.iter().flat_map(|x| x.roots.iter().copied().collect::<Vec<_>>()).filter(|x| *x != 0).collect()
+        });
+        let mut rows: Vec<String> = vec![];
+        for (idx, kid, vid) in self.chains.iter() {
+            let (k, v) = table.get(*idx).copied().unwrap_or((0, 0));
+            if k == 0 {
+                continue;
+            }
+            let rooted = roots.iter().copied().find(|r| (id_of_ref(*r) & 0x7fff_ffff) == *kid).unwrap_or(0);
+            rows.push(format!(
+                "{{\"i\":{},\"k\":{},\"kid\":{},\"ekid\":{},\"vid\":{},\"evid\":{},\"root\":{}}}",
+                idx + 1,
+                proj(k),
+                id_of_ref(k) & 0x7fff_ffff,
+                kid,
+                if v == 0 { 0 } else { id_of_ref(v) & 0x7fff_ffff },
+                vid,
+                if rooted == 0 { "[0,0]".to_string() } else { proj(rooted) }
+            ));
+        }
+        ev(Obj::new("WeakTable").json("rows", &format!("[{}]", rows.join(","))));
     }
 
     /// Ephemeron chain of length `k`: key0 is rooted, value_i is the key of entry i+1. Needs k+1
@@ -123,11 +161,16 @@ impl<const V: u32> Drv<V> {
             }
         }
         let objs: Vec<usize> = (0..=k).map(|i| root_get(m, base + i)).collect();
-        with_world(|w| {
+        let first = with_world(|w| {
+            let first = w.weak_table.len();
             for i in 0..k {
                 w.weak_table.push((objs[i], objs[i + 1]));
             }
+            first
         });
+        for i in 0..k {
+            self.chains.push((first + i, id_of_ref(objs[i]) & 0x7fff_ffff, id_of_ref(objs[i + 1]) & 0x7fff_ffff));
+        }
         ev(Obj::new("WeakChain").int("m", m as i64).int("len", k as i64));
         // keep only the first key rooted (in an ordinary slot)
         let keep = self.rng.below(self.nslots as u64) as usize;
@@ -152,6 +195,7 @@ fn reset(pi: u64) {
 
 fn program<const V: u32>(d: &mut Drv<V>, nmut: usize, pi: u64, nops: u64, weak: usize, is_nogc: bool) {
     reset(pi);
+    d.chains.clear();
     let gc_weight = if is_nogc { 0 } else { 2 + d.rng.below(5) };
     for _ in 0..nops {
         safepoint();
@@ -420,6 +464,7 @@ fn run<const V: u32>() {
         max_non_los: constraints.max_non_los_default_alloc_bytes,
         rng: Rng::new(seed_from_env() ^ 0x5c4ed),
         nslots: 10,
+        chains: vec![],
     };
     ev(Obj::new("Boot")
         .str("plan", &plan)
